@@ -21,7 +21,12 @@ VERIF = pathlib.Path(__file__).resolve().parent.parent
 PY = '/venv/bin/python' if os.path.exists('/venv/bin/python') else sys.executable
 
 
-def one(d):
+PROPS = None
+
+
+def one(d, props=None):
+    global PROPS
+    PROPS = props
     d = pathlib.Path(d)
     tmp = pathlib.Path(tempfile.mkdtemp(prefix='cirbo_benign_'))
     try:
@@ -31,8 +36,7 @@ def one(d):
             return str(d), {'apply_error': (r.stdout + r.stderr)[-300:]}
         env = dict(os.environ, CIRBO_VERIF_REPO=str(tmp), CIRBO_VERIF_EVIDENCE=str(tmp / 'evidence'))
         out = {}
-        for i in range(1, 21):
-            p = f'C{i:02d}'
+        for p in (PROPS or [f'C{i:02d}' for i in range(1, 21)]):
             r = subprocess.run([PY, '-m', 'cirbo_verif', 'check', p], cwd=VERIF, env=env, capture_output=True, text=True)
             if r.returncode != 0:
                 lines = [l[:300] for l in r.stdout.splitlines() if l.startswith(('  rule', 'ANALYSIS-ERROR'))]
@@ -44,18 +48,30 @@ def one(d):
 
 
 def main():
-    dirs = [a for a in sys.argv[1:] if not a.startswith('--')]
+    global PROPS
+    argv = list(sys.argv)
+    if '--props' in argv:
+        i = argv.index('--props')
+        PROPS = argv[i + 1].split(',')
+        del argv[i:i + 2]
+    if '--json' in argv:
+        i = argv.index('--json')
+        jpath = argv[i + 1]
+        del argv[i:i + 2]
+    else:
+        jpath = None
+    dirs = [a for a in argv[1:] if not a.startswith('--')]
     if '--stored' in sys.argv:
         dirs += sorted(str(p) for p in (VERIF / 'benign').iterdir() if (p / 'patch.diff').exists())
     res = {}
     with concurrent.futures.ProcessPoolExecutor(10) as ex:
-        for d, out in ex.map(one, dirs):
+        for d, out in ex.map(one, dirs, [PROPS] * len(dirs)):
             res[d] = out
             print(d, 'SILENT' if not out else json.dumps(out, indent=1))
     n_bad = sum(1 for v in res.values() if v)
     print(f'{len(res) - n_bad} of {len(res)} refactorings leave every check silent')
-    if '--json' in sys.argv:
-        pathlib.Path(sys.argv[sys.argv.index('--json') + 1]).write_text(json.dumps(res, indent=1))
+    if jpath:
+        pathlib.Path(jpath).write_text(json.dumps(res, indent=1))
 
 
 if __name__ == '__main__':
